@@ -251,6 +251,23 @@ def edge_forms(fn):
                     elif kinds == {"Some"}:
                         out.append((b, s, none_f.negate(), t["loc"]["l"]))
                 continue
+            # `match a.cmp(&b) { Less => .., Equal => .., Greater => .. }`
+            if term[0] == "discr" and term[1][0] == "call" and term[1][1].split("::")[-1] == "cmp" and len(term[1][2]) == 2:
+                a, b2 = lin(term[1][2][0]), lin(term[1][2][1])
+                by_val = {-1: _cmp("Lt", a, b2), 0: _cmp("Eq", a, b2), 1: _cmp("Gt", a, b2), 255: _cmp("Lt", a, b2), 18446744073709551615: _cmp("Lt", a, b2)}
+                names = {val: n for (n, val) in (term[3] if len(term) > 3 and term[3] else ())}
+                by_name = {"Less": _cmp("Lt", a, b2), "Equal": _cmp("Eq", a, b2), "Greater": _cmp("Gt", a, b2)}
+                listed = {v for v, _ in t["targets"]}
+                for s in fn.succ(b):
+                    vals = [v for v, tb in t["targets"] if tb == s]
+                    forms = [by_name.get(names.get(v)) or by_val.get(v) for v in vals]
+                    if not vals and t.get("otherwise") == s and names:
+                        rest = [n for (n, val) in term[3] if val not in listed]
+                        forms = [by_name.get(n) for n in rest]
+                    forms = [x for x in forms if x is not None]
+                    if len(forms) == 1:
+                        out.append((b, s, forms[0], t["loc"]["l"]))
+                continue
             # `match d { 0 => .., _ => .. }` on an integer: value edges are equalities, the rest inequalities
             if t.get("ty") in ("u8", "u16", "u32", "u64", "u128", "usize", "i32", "i64", "isize") and term[0] not in ("discr",):
                 l0 = lin(term)
